@@ -1,22 +1,40 @@
 #!/bin/bash
-# usage: tools/confirm_seeded.sh <mutdir> <worktree> [<demo-target-relative-path>]
+# usage: tools/confirm_seeded.sh <mutdir> <worktree>
 # Confirms in a scratch worktree: demo passes on pristine, suite passes with the patch, demo fails with the patch.
+# Demo kinds: demo.rs (integration test for emulator-2a-lib), demo.rs starting with "// append-to: <file>"
+# (unit-test module appended to a source file of the binary crate), demo.sh (shell script run in the worktree).
 # Prints a JSON fragment with the outcome. The worktree is left clean.
 set -u
-M="$1"; WT="$2"; DEMO_REL="${3:-emulator-2a-lib/tests/demo_mut.rs}"
+M="$1"; WT="$2"
 cd "$WT" || exit 2
-git checkout -q -- . ; git clean -fdq -e target
-PKG=$(echo "$DEMO_REL" | cut -d/ -f1)
-mkdir -p "$(dirname "$DEMO_REL")"
-cp "$M/demo.rs" "$DEMO_REL"
-cargo test --offline -p "$PKG" --test demo_mut >/tmp/confirm-pristine.log 2>&1; P0=$?
-rm -f "$DEMO_REL"; rmdir "$(dirname "$DEMO_REL")" 2>/dev/null
+clean() { git checkout -q -- . ; git clean -fdq -e target; }
+clean
+run_demo() {
+  if [ -f "$M/demo.sh" ]; then
+    bash "$M/demo.sh" >/tmp/confirm-demo.log 2>&1; return $?
+  fi
+  local first; first=$(head -1 "$M/demo.rs")
+  if [[ "$first" == "// append-to:"* ]]; then
+    local target; target=$(echo "$first" | sed 's|// append-to: *||')
+    cat "$M/demo.rs" >> "$target"
+    cargo test --offline -p emulator-2a demo_mut >/tmp/confirm-demo.log 2>&1; local rc=$?
+    # a filter that matches no test would "pass": require that something ran
+    grep -q 'running [1-9]' /tmp/confirm-demo.log || rc=99
+    git checkout -q -- "$target"
+    return $rc
+  fi
+  mkdir -p emulator-2a-lib/tests
+  cp "$M/demo.rs" emulator-2a-lib/tests/demo_mut.rs
+  cargo test --offline -p emulator-2a-lib --test demo_mut >/tmp/confirm-demo.log 2>&1; local rc=$?
+  rm -rf emulator-2a-lib/tests
+  return $rc
+}
+run_demo; P0=$?
+clean
 if ! git apply "$M/patch.diff"; then echo '{"applies": false}'; exit 1; fi
 cargo test --workspace --offline >/tmp/confirm-suite.log 2>&1; S=$?
 FAILS=$(grep -c 'test result: FAILED' /tmp/confirm-suite.log)
 PASSED=$(grep 'test result: ok' /tmp/confirm-suite.log | sed 's/.*ok\. \([0-9]*\) passed.*/\1/' | paste -sd+ | bc)
-mkdir -p "$(dirname "$DEMO_REL")"
-cp "$M/demo.rs" "$DEMO_REL"
-cargo test --offline -p "$PKG" --test demo_mut >/tmp/confirm-mutated.log 2>&1; P1=$?
-git checkout -q -- . ; git clean -fdq -e target
-echo "{\"applies\": true, \"demo_passes_on_pristine\": $([ $P0 = 0 ] && echo true || echo false), \"suite_exit_with_patch\": $S, \"suite_failed_groups\": $FAILS, \"suite_tests_passed_with_patch\": ${PASSED:-0}, \"demo_fails_with_patch\": $([ $P1 != 0 ] && echo true || echo false)}"
+run_demo; P1=$?
+clean
+echo "{\"applies\": true, \"demo_passes_on_pristine\": $([ $P0 = 0 ] && echo true || echo false), \"suite_exit_with_patch\": $S, \"suite_failed_groups\": $FAILS, \"suite_tests_passed_with_patch\": ${PASSED:-0}, \"demo_fails_with_patch\": $([ $P1 != 0 ] && [ $P1 != 99 ] && echo true || echo false)}"
